@@ -144,8 +144,23 @@ def run(tier, seed):
                         V.oblige(ok)
                         shape_done += 1
                         if not ok:
-                            V.inconc("%s [%s]: the std::sqrt result is not computed by the expected expression (%s): the one-ulp clause is "
-                                     "not decided for this shape; path %s" % (w, cfg, why, lib.describe_path(p)))
+                            # a different expression: an argument whose result is a whole ulp or more from the real root makes it a violation
+                            import random
+
+                            def bad_ulp(a, o):
+                                if o[0] != "ret" or a[0] <= 0 or a[0] > T47:
+                                    return False
+                                n_ = a[0] << 16
+                                return not (max(o[1] - 1, 0) ** 2 < n_ < (o[1] + 1) ** 2 or o[1] * o[1] == n_)
+                            args, out = lib.search(r, p.state, bad_ulp, random.Random(V.seed), limit=4000)
+                            if args is not None:
+                                import math
+                                V.violation("sqrt(x) within one ulp of the real square root (std::sqrt algorithm)", w[2:],
+                                            "%s(%d) [%s] %s but sqrt(65536*raw) = %d.." % (w, args[0], cfg, lib.out_str(out), math.isqrt(args[0] << 16)),
+                                            lib.rp(r, args, "std sqrt one ulp"))
+                            else:
+                                V.inconc("%s [%s]: the std::sqrt result is not computed by the expected expression (%s): the one-ulp clause is "
+                                         "not decided for this shape; path %s" % (w, cfg, why, lib.describe_path(p)))
         except Broken as e:
             V.broke("%s: %s" % (cfg, e))
     if shape_done == 0:
